@@ -444,6 +444,42 @@ func (e *Engine) discharge(o *Obligation, workdir string, budgetS int, idx int) 
 		return
 	}
 	final := race(file, budgetS, false)
+	if final.status != "unsat" && final.status != "sat" && final.status != "error" && o.Kind != "cover" {
+		// undecided: before giving up try other heuristic seeds (an obligation
+		// that is provable but unlucky must not become a false alarm)
+		ctx, cancel := context.WithCancel(context.Background())
+		type seeded struct {
+			name string
+			args []string
+		}
+		alts := []seeded{
+			{"z3-5.1.0/seed7", []string{"smt.random_seed=7", "sat.random_seed=7"}},
+			{"z3-5.1.0/seed23", []string{"smt.random_seed=23", "sat.random_seed=23", "smt.arith.random_initial_value=true"}},
+			{"z3-4.8.12/seed11", []string{"smt.random_seed=11"}},
+		}
+		ch := make(chan solveResult, len(alts))
+		for _, a := range alts {
+			a := a
+			go func() {
+				sp := solverSpec{name: a.name, bin: "z3-new", args: func(t int, f string) []string {
+					return append([]string{fmt.Sprintf("-T:%d", t)}, append(a.args, f)...)
+				}}
+				if strings.HasPrefix(a.name, "z3-4.8.12") {
+					sp.bin = "z3"
+				}
+				ch <- runSolver(ctx, sp, budgetS, file)
+			}()
+		}
+		for i := 0; i < len(alts); i++ {
+			rr := <-ch
+			o.Outputs[rr.solver] = firstLines(rr.out, 3)
+			if rr.status == "unsat" || rr.status == "sat" {
+				final = rr
+				break
+			}
+		}
+		cancel()
+	}
 	o.TimeS = time.Since(start).Seconds()
 	o.Solver = final.solver
 	expectSat := o.Kind == "cover"
